@@ -10,17 +10,17 @@ EmptyParty == [identity |-> <<>>, nonce |-> <<>>, other |-> <<>>]
 EmptySuppPub == [kdl |-> Nat2I(0), prot |-> EmptyProt, other |-> <<>>]
 EmptyKdf == [alg |-> Assigned("Algorithm", "Reserved"), pu |-> EmptyParty, pv |-> EmptyParty, pub |-> EmptySuppPub, priv |-> <<>>]
 
-BN(v) == IF v.t = "null" THEN Good(<<>>) ELSE IF v.t = "bytes" THEN Good(<<v.b>>) ELSE TypeErr
+BN(v) == IF v.t = "null" THEN Good(<<>>) ELSE IF v.t = "bytes" THEN Good(<<v.b>>) ELSE WrongType(v, "bstr / nil")
 
 Party_FromCbor(v) ==
-  IF v.t # "array" THEN TypeErr
-  ELSE IF Len(v.a) # 3 THEN TypeErr
+  IF v.t # "array" THEN WrongType(v, "array")
+  ELSE IF Len(v.a) # 3 THEN Unexp("array", "array with 3 items")
   ELSE LET o == BN(v.a[3]) IN
     IF ~o.ok THEN o
     ELSE LET n == IF v.a[2].t = "null" THEN Good(<<>>)
                   ELSE IF v.a[2].t = "bytes" THEN Good(<<NonceB(v.a[2].b)>>)
                   ELSE IF v.a[2].t = "int" THEN (IF IntFitsI64(v.a[2]) THEN Good(<<NonceI(v.a[2])>>) ELSE Err("OutOfRangeIntegerValue"))
-                  ELSE TypeErr IN
+                  ELSE WrongType(v.a[2], "bstr / int / nil") IN
       IF ~n.ok THEN n
       ELSE LET i == BN(v.a[1]) IN
         IF ~i.ok THEN i ELSE Good([identity |-> i.x, nonce |-> n.x, other |-> o.x])
@@ -32,13 +32,13 @@ Party_ToCbor(p) ==
              OB(p.other)>>))
 
 SuppPub_FromCbor(v) ==
-  IF v.t # "array" THEN TypeErr
-  ELSE IF Len(v.a) # 2 /\ Len(v.a) # 3 THEN TypeErr
-  ELSE LET o == IF Len(v.a) = 3 THEN (IF v.a[3].t = "bytes" THEN Good(<<v.a[3].b>>) ELSE TypeErr) ELSE Good(<<>>) IN
+  IF v.t # "array" THEN WrongType(v, "array")
+  ELSE IF Len(v.a) # 2 /\ Len(v.a) # 3 THEN Unexp("array", "array with 2 or 3 items")
+  ELSE LET o == IF Len(v.a) = 3 THEN (IF v.a[3].t = "bytes" THEN Good(<<v.a[3].b>>) ELSE WrongType(v.a[3], "bstr")) ELSE Good(<<>>) IN
     IF ~o.ok THEN o
     ELSE LET p == Prot_FromBstr(v.a[2]) IN
       IF ~p.ok THEN p
-      ELSE IF v.a[1].t # "int" THEN TypeErr
+      ELSE IF v.a[1].t # "int" THEN WrongType(v.a[1], "int")
       ELSE IF ~IntFitsU64(v.a[1]) THEN Err("OutOfRangeIntegerValue")
       ELSE Good([kdl |-> v.a[1], prot |-> p.x, other |-> o.x])
 
@@ -51,12 +51,12 @@ SuppPub_ToCbor(s) ==
 RECURSIVE PrivFrom(_, _, _)
 PrivFrom(a, i, acc) ==
   IF i < 5 THEN Good(acc)
-  ELSE IF a[i].t # "bytes" THEN TypeErr
+  ELSE IF a[i].t # "bytes" THEN WrongType(a[i], "bstr")
   ELSE PrivFrom(a, i - 1, <<a[i].b>> \o acc)
 
 Kdf_FromCbor(v) ==
-  IF v.t # "array" THEN TypeErr
-  ELSE IF Len(v.a) < 4 THEN TypeErr
+  IF v.t # "array" THEN WrongType(v, "array")
+  ELSE IF Len(v.a) < 4 THEN Unexp("array", "array with at least 4 items")
   ELSE LET pr == PrivFrom(v.a, Len(v.a), <<>>) IN
     IF ~pr.ok THEN pr
     ELSE LET sp == SuppPub_FromCbor(v.a[4]) IN
